@@ -8,7 +8,6 @@ import (
 	"io"
 	"os"
 	"runtime"
-	"strings"
 	"sync/atomic"
 
 	"github.com/dgrr/http2"
@@ -30,6 +29,10 @@ type C16Plan struct {
 	// AfterHex: a short well-formed stream (frames without payload among them) read through a sound reader after the
 	// faulty read, out of the same pools: what a failed read left behind must not show in the next connection's frames
 	AfterHex string `json:"after_hex,omitempty"`
+
+	// decoded counts, per run, how often each distinct header block fragment went through the HPACK decoder: decoding
+	// is a function of the fragment alone, and an all-offsets run meets the same fragment once per cut behind it
+	decoded map[string]int
 }
 
 type faultyReader struct {
@@ -82,7 +85,18 @@ func genFrameStream(r *RNG) ([]byte, string) {
 			L := Pick(r, 1, 2, 5, 9, 100)
 			pl := make([]byte, L)
 			pl[0] = byte(Pick(r, L, L, L-1, L+1, 255))
-			out = append(out, fw.Raw(uint8(Pick(r, int(FData), int(FHeaders))), uint8(0x08|Pick(r, 0, 1, 4, 5)), id|1, pl)...)
+			typ, flags := uint8(Pick(r, int(FData), int(FHeaders))), uint8(0x08|Pick(r, 0, 1, 4, 5))
+			if typ == FHeaders && r.Intn(3) == 0 {
+				// ... or a HEADERS frame with the PRIORITY flag around the five octets its fixed fields take, with and
+				// without padding in front of them (Pad Length 0: the fields must fit; more: they must fit before it)
+				L = Pick(r, 0, 1, 4, 5, 6, 7)
+				pl = make([]byte, L)
+				flags = uint8(0x20 | Pick(r, 0, 4, 8, 12))
+				if flags&0x08 != 0 && L > 0 {
+					pl[0] = byte(Pick(r, 0, 0, 1, L-1))
+				}
+			}
+			out = append(out, fw.Raw(typ, flags, id|1, pl)...)
 		case 0:
 			out = append(out, fw.Data(id|1, r.Intn(2) == 0, make([]byte, Pick(r, 0, 1, 100, 16384)), Pick(r, -1, -1, 0, 1, 255))...)
 		case 1:
@@ -389,15 +403,16 @@ func c16Once(p *C16Plan, data []byte, cut int, res *RunResult) *Violation {
 			return mk("body-mismatch", "body-mismatch/"+ftName(want.Type), fmt.Sprintf("frame %d (%s): %s", i, want, d))
 		}
 		if (want.Type == FHeaders || want.Type == FContinuation) && want.Err == "" {
-			if fh, ok := f.Body().(http2.FrameWithHeaders); ok {
+			if fh, ok := f.Body().(http2.FrameWithHeaders); ok && p.decoded[string(fh.Headers())] < 8 {
+				p.decoded[string(fh.Headers())]++
 				res.Probes["header-block-decoded"]++
 				if d := c16DecodeBlock(fh.Headers()); d != "" {
 					return mk("hpack", "hpack/"+normMsg([]byte(d)), fmt.Sprintf("frame %d (%s), header block fragment %x: %s", i, want, fh.Headers(), d))
 				}
 			}
 		}
-		if want.Err != "" && structurallyImpossible(want) {
-			return mk("impossible-structure-accepted", "impossible-structure-accepted/"+ftName(want.Type), fmt.Sprintf("frame %d was accepted although its fixed-size or padding structure is impossible: %s", i, want.Err))
+		if why := structurallyImpossible(want, data[pos+9:pos+9+want.Len]); why != "" {
+			return mk("impossible-structure-accepted", "impossible-structure-accepted/"+ftName(want.Type), fmt.Sprintf("frame %d (%s, flags %#x) was accepted although its fixed-size or padding structure is impossible: %s (x/net: %q)", i, want, want.Flags, why, want.Err))
 		}
 		pos += 9 + want.Len
 		if consumed != pos {
@@ -409,25 +424,62 @@ func c16Once(p *C16Plan, data []byte, cut int, res *RunResult) *Violation {
 	return nil
 }
 
-// structurallyImpossible: x/net's complaint is about a fixed-size or padding structure (not about semantics such as stream 0).
-func structurallyImpossible(f *Frame) bool {
+// structurallyImpossible says why a frame's fixed-size or padding structure cannot be (RFC 9113 6.1-6.9), or "".
+// It is computed from the frame's own octets, not from x/net's verdict: x/net answers "connection error:
+// PROTOCOL_ERROR" both for a Pad Length that does not fit and for a DATA or HEADERS frame on stream 0, which it
+// refuses before it looks at the padding - and a stream identifier is semantics (the connection layer's business,
+// C01/C02), not structure.
+func structurallyImpossible(f *Frame, payload []byte) string {
+	fixed := func(n int) string {
+		if f.Len != n {
+			return fmt.Sprintf("payload of %d octets, the frame type has exactly %d", f.Len, n)
+		}
+		return ""
+	}
 	switch f.Type {
 	case FPriority:
-		return f.Len != 5
+		return fixed(5)
 	case FRST:
-		return f.Len != 4
+		return fixed(4)
 	case FWindowUpdate:
-		return f.Len != 4
+		return fixed(4)
 	case FPing:
-		return f.Len != 8
+		return fixed(8)
 	case FSettings:
-		return f.Len%6 != 0 || (f.Flags&1 != 0 && f.Len != 0)
+		if f.Len%6 != 0 {
+			return fmt.Sprintf("payload of %d octets is not a multiple of 6", f.Len)
+		}
+		if f.Flags&0x1 != 0 && f.Len != 0 {
+			return fmt.Sprintf("acknowledgement with a payload of %d octets", f.Len)
+		}
 	case FGoAway:
-		return f.Len < 8
-	case FData, FHeaders:
-		return strings.Contains(f.Err, "pad") || strings.Contains(f.Err, "PROTOCOL_ERROR") && f.Flags&0x8 != 0
+		if f.Len < 8 {
+			return fmt.Sprintf("payload of %d octets, the fixed part has 8", f.Len)
+		}
+	case FData, FHeaders, FPushPromise:
+		rest, pad := f.Len, 0
+		if f.Flags&0x8 != 0 { // PADDED
+			if rest < 1 {
+				return "PADDED without room for the Pad Length octet"
+			}
+			pad = int(payload[0])
+			rest--
+		}
+		need := 0 // fixed-size fields between the Pad Length octet and the fragment
+		if f.Type == FHeaders && f.Flags&0x20 != 0 {
+			need = 5 // PRIORITY: stream dependency + weight
+		}
+		if f.Type == FPushPromise {
+			need = 4 // promised stream id
+		}
+		if pad > rest-need && f.Flags&0x8 != 0 {
+			return fmt.Sprintf("Pad Length %d, but only %d octets follow the Pad Length octet and %d of them are fixed fields", pad, rest, need)
+		}
+		if rest < need {
+			return fmt.Sprintf("%d octets where the fixed fields alone take %d", rest, need)
+		}
 	}
-	return false
+	return ""
 }
 
 func compareBody(f *http2.FrameHeader, want *Frame) string {
@@ -480,6 +532,7 @@ func RunC16(p *C16Plan) *RunResult {
 	run.RegisterSelf("c16")
 	run.Pools.Policy = p.PoolPol
 	data, _ := hex.DecodeString(p.StreamHex)
+	p.decoded = map[string]int{}
 	cuts := []int{p.CutAt}
 	if p.AllCuts {
 		cuts = cuts[:0]
@@ -488,8 +541,19 @@ func RunC16(p *C16Plan) *RunResult {
 		}
 	}
 	inside := 0
-	for _, c := range cuts {
+	for k, c := range cuts {
 		atomic.AddInt64(&heartbeat, 1) // one run reads the stream once per cut: progress is per cut, not per run
+		if p.PoolPol == simrt.PoolQuarantine && k > 0 && k%64 == 0 {
+			// Under quarantine nothing that was released is handed out again: the free lists grow with every cut, and
+			// re-hashing all of them after every cut makes a run over thousands of offsets quadratic (minutes; the
+			// driver then gives the worker up: exit 2). Nothing is live between two cuts, so the pools start afresh
+			// every 64 cuts; what was released within those 64 cuts stays under watch for writes after release.
+			run.End()
+			run = simrt.Begin()
+			run.RegisterSelf("c16")
+			run.Pools.Policy = p.PoolPol
+			res.Probes["quarantine-pools-renewed"]++
+		}
 		if v := c16Once(p, data, c, res); v != nil {
 			res.Viol = v
 			break
